@@ -112,6 +112,21 @@ def twin_projects():
             files["res/c.jst"] = twin_text("c", "owls")
             main += "INCLUDE res/c.jst\n"
         res.append((nm, "JSIGHT 0.3\n" + "".join(files[k] for k in sorted(files)), main, files))
+    # long chains of nested INCLUDEs of distinct files (depth, not count): every level adds one declaration and, at the
+    # end, includes the next one; also as children of one method
+    for depth in (8, 17, 24, 40):
+        files, flat = {}, ["JSIGHT 0.3"]
+        for k in range(1, depth + 1):
+            body = "TYPE @zchain%d any\n" % k
+            flat.append(body.rstrip("\n"))
+            files["c/l%d.jst" % k] = body + ("INCLUDE l%d.jst\n" % (k + 1) if k < depth else "")
+        res.append(("chain_of_%d_files" % depth, "\n".join(flat) + "\n", "JSIGHT 0.3\nINCLUDE c/l1.jst\n", files))
+        files, flat = {}, ["JSIGHT 0.3", "GET /zchain", "  200 any"]
+        for k in range(1, depth + 1):
+            body = "  %d any\n" % (400 + k)
+            flat.append(body.rstrip("\n"))
+            files["r%d.jst" % k] = body + ("INCLUDE r%d.jst\n" % (k + 1) if k < depth else "")
+        res.append(("chain_of_%d_files_of_children" % depth, "\n".join(flat) + "\n", "JSIGHT 0.3\nGET /zchain\n  200 any\nINCLUDE r1.jst\n", files))
     return res
 
 
